@@ -8,7 +8,7 @@ from ..kit import (
     table_check, weak_orders,
 )
 from ..paths import Event, Path
-from ..terms import NONE, Term, Unrecognised, World, key, strip_ver
+from ..terms import subterms, NONE, Term, Unrecognised, World, key, strip_ver
 from .matching import analyse_walk, pop_side, queue_side
 
 GTLT = "Order._gt_lt"
@@ -60,6 +60,28 @@ def r1(ctx: Ctx) -> None:
     f = ctx.func(GTLT)
     nested = [n.qualname for n in f.nested.values()]
     paths = ctx.paths(GTLT, inline=nested)
+    # fields of the two orders the comparison reads besides the priority keys: a copy of a key taken by the
+    # constructor goes stale when the key is rewritten later (pre-acceptance hooks do rewrite kind, side and price)
+    extra = sorted({x[2] for p_ in paths for c, _, _ in p_.conds for x in subterms(strip_ver(c))
+                    if x[0] == "attr" and x[1] in (("sym", "self"), ("sym", "other")) and x[2] not in KEY_ATTRS and x[2] not in ("__class__",)}
+                   - set(ctx.program.cls("Order").methods))
+    ini_params = set(ctx.func("Order.__init__").params)
+    for a in extra:
+        if a in ini_params:
+            continue  # a constructor field that is no key: reported by the table check below
+        ws = ctx.cg.writers_of("Order", a, kinds=("store", "aug", "del"))
+        src = set()
+        for pa in ctx.paths("Order.__init__"):
+            for e in pa.walk_events():
+                if e.kind == "store" and e.attr == a and key(strip_ver(e.base)) == "self":
+                    src |= {x[1] for x in subterms(strip_ver(e.value)) if x[0] == "sym" and x[1] in KEY_ATTRS} | {x[2] for x in subterms(strip_ver(e.value)) if x[0] == "attr" and x[1] == ("sym", "self") and x[2] in KEY_ATTRS}
+        only_init = bool(ws) and all(w.func.qualname == "Order.__init__" for w in ws)
+        later = sorted({w.func.qualname for k_ in src for w in ctx.cg.writers_of("Order", k_, kinds=("store", "aug", "del")) if w.func.qualname != "Order.__init__" and not (w.recv and "Order" not in w.recv)})
+        if only_init and src and later:
+            ctx.violated(f, f.node, f"the comparison reads Order.{a}", "the ranking reads the priority keys themselves", f"Order.{a} is computed from {', '.join(sorted(src))} by the constructor and never again, while {', '.join(later[:3])} rewrite(s) {', '.join(sorted(src))} afterwards: the comparison then ranks the order by what it was constructed as")
+        else:
+            ctx.unrec(f, f.node, f"the comparison reads Order.{a}", "a field that is neither a priority key nor a constructor parameter: how it follows the keys is not decided")
+        return
     table_check(
         ctx, f, f.node, "strict order table of Order._gt_lt", paths, list(_order_worlds()),
         lambda t: key(strip_ver(t)) in _ATOMS, _outcome, _spec,
@@ -457,3 +479,17 @@ def h2(ctx: Ctx) -> None:
     from .events import check_identity_comparisons
 
     check_identity_comparisons(ctx, ["Order", "OrderKind", "OrderBook"], floor=15)
+
+
+@rule("C02.H3", "mechanism shared with C03: the ranking reads the kind of an order and the price of a limit order; the two stay tied (market order <=> no price) after the constructor", "T1 writers + T6 per path (same rule as C03.H10)", floor=2)
+def h3(ctx: Ctx) -> None:
+    from .c03 import check_kind_price
+
+    check_kind_price(ctx)
+
+
+@rule("C02.H4", "mechanism shared with C03: every order popped during a round is back in its book when the round ends, whichever way it ends (an order that vanished from its book while live is never served, whatever its priority)", "T4 pairing (same rule as C03.R3)", floor=4)
+def h4(ctx: Ctx) -> None:
+    from .c03 import r3 as restore_rule
+
+    restore_rule(ctx)
